@@ -242,6 +242,18 @@ def test_stepper():
     check("t=__cryosim_fp__" in src.replace(" ", "") and "return" in src, "stepper: first-private default + continue->return")
 
 
+def test_failure_path():
+    """a worker that raises must end the check with exit 2 promptly (never a hang, never exit 0)"""
+    env = dict(os.environ, CRYOSIM_SELFTEST_WORKER_FAILURE="1", CRYOSIM_EVIDENCE_DIR="/tmp/cryosim-evidence-scratch",
+               CRYOSIM_REPLAY_DIR="/tmp/cryosim-evidence-scratch")
+    os.makedirs("/tmp/cryosim-evidence-scratch", exist_ok=True)
+    try:
+        p = subprocess.run([os.path.join(VERIF, "bin", "check"), "C05", "--runs", "40"], capture_output=True, text=True, env=env, timeout=300)
+        check(p.returncode == 2 and "VIOLATION" not in p.stdout, "a failing worker gives exit 2 without a VIOLATION line (rc=%d)" % p.returncode)
+    except subprocess.TimeoutExpired:
+        check(False, "a failing worker must not hang the check")
+
+
 def test_determinism(props, n):
     rc = 0
     for pid in props:
@@ -258,6 +270,7 @@ def main():
     test_parsers()
     test_simfs()
     test_stepper()
+    test_failure_path()
     props = [a for a in sys.argv[1:] if a.startswith("C")]
     if "--determinism" in sys.argv or props:
         n = 15
